@@ -74,7 +74,7 @@ PROPS = {
         "level": "exploration",
         "runs": {"quick": 800, "thorough": 20000},
         "budget_s": {"quick": 400, "thorough": 3000},
-        "rule": "one evaluation = one proving request on a faulty host: the value stored at a seeded witness-allocation instant k is corrupted (same menu as C02) and everything computed afterwards proceeds honestly, or one operand of one arithmetic row is re-wired to a fresh witness with another value (twin: rows hold, a compiled copy constraint breaks); the unsatisfied-circuit check stays on. Oracle: the independent row-by-row evaluator RM-rows (each identity component of the arithmetic / range / logic / fixed-base / curve-addition widgets separately, next-row wires cyclic over the padded domain, compiled copy constraints value-wise) on the snapshot of the faulted instance against the compiled layout: satisfied => Prover::prove is Ok and the proof is accepted by the real and the reference verifier; violated => Err(CircuitUnsatisfied); other row count => Err(InvalidCircuitSize); synthesis error => that error; never a panic. Programs include raw rows with arbitrary selector combinations, a selected row on the last row of a full domain, twins at exactly 2^k rows, and symmetric-pair programs (two rows half a domain apart violated by the same amount, so that sum e_i w^i-style cancellations in the quotient are exercised). Thorough tier: for every 8th program with <= 300 witnesses every allocation instant x 8 fixed corruption kinds is enumerated. Non-trivial = the fault changed a stored value (or a twin).",
+        "rule": "one evaluation = one proving request on a faulty host: the value stored at a seeded witness-allocation instant k is corrupted (same menu as C02) and everything computed afterwards proceeds honestly, or one operand of one arithmetic row is re-wired to a fresh witness with another value (twin: rows hold, a compiled copy constraint breaks); the unsatisfied-circuit check stays on. Oracle: the independent row-by-row evaluator RM-rows (each identity component of the arithmetic / range / logic / fixed-base / curve-addition widgets separately, next-row wires cyclic over the padded domain, compiled copy constraints value-wise) on the snapshot of the faulted instance against the compiled layout: satisfied => Prover::prove is Ok and the proof is accepted by the real and the reference verifier; violated => Err(CircuitUnsatisfied); other row count => Err(InvalidCircuitSize); synthesis error => that error; never a panic. Programs include raw rows with arbitrary selector combinations, a selected row on the last row of a full domain, twins at exactly 2^k rows, and symmetric-pair programs (two rows half a domain apart violated by the same amount, so that sum e_i w^i-style cancellations in the quotient are exercised). Thorough tier: for every 8th program with <= 300 witnesses every allocation instant x 10 fixed corruption kinds is enumerated. Non-trivial = the fault changed a stored value (or a twin).",
         "assumptions": ["RM-rows treats each identity component separately; the prover combines them with random separation challenges, so the two can differ only with probability ~2^-250", "RM-rows (sim/plonksim/src/rm_rows.rs) and RM-verify are the trusted base"],
     },
     "C06": {
@@ -88,7 +88,7 @@ PROPS = {
         "level": "exploration",
         "runs": {"quick": 6000, "thorough": 200000},
         "budget_s": {"quick": 400, "thorough": 3000},
-        "rule": "one evaluation = one synthesis of a generated program (every public composer component incl. range / logic / truncate / decomposition at the widths of the menu, point components, mul_point and mul_generator, raw rows) under a fault injected during synthesis: the witness-allocation hook corrupts the value stored at instant k (menu as in C02; for every 4th program with <= 400 witnesses every instant is enumerated), or a hostile tape delivers corrupted request values (off-curve point, (0,0), zero-Z extended point, mixed-order and small-order curve points, order-2 point, inconsistent T1*T2, scaled-Z representation, identity; scalars 2 as a bit, -1, r_jubjub, r_jubjub-1, 2^k, 2^k-1, 2^252, random). Oracle: synthesis returns Err, or the snapshot's selectors, wiring, public-input rows, row count and witness count equal those of the default (zero-tape) instance; a panic is a violation; abort / hang are caught by the supervisor through pre-case log lines. Non-trivial = every faulted synthesis.",
+        "rule": "one evaluation = one synthesis of a generated program (every public composer component incl. range / logic / truncate / decomposition at the widths of the menu, point components, mul_point and mul_generator, raw rows) under a fault injected during synthesis: the witness-allocation hook corrupts the value stored at instant k (menu as in C02, plus a y-coordinate solved for so that it forms an addition-law pole with the three values stored before it; for every 4th program with <= 400 witnesses every instant is enumerated), or a hostile tape delivers corrupted request values (off-curve point, (0,0), zero-Z extended point, mixed-order and small-order curve points, order-2 point, inconsistent T1*T2, scaled-Z representation, identity, two point inputs placed on a pole of the addition law with respect to each other (d x1 x2 y1 y2 = +-1); scalars 2 as a bit, -1, r_jubjub, r_jubjub-1, 2^k, 2^k-1, 2^252, random). Oracle: synthesis returns Err, or the snapshot's selectors, wiring, public-input rows, row count and witness count equal those of the default (zero-tape) instance; a panic is a violation; abort / hang are caught by the supervisor through pre-case log lines. Non-trivial = every faulted synthesis.",
         "assumptions": ["const-generic widths are monomorphised from a fixed menu (range bits 0..256 at 29 widths, bit-pairs at 13, logic at 12, truncate at 16, decomposition at 12)"],
     },
     "C15": {
